@@ -204,6 +204,30 @@ Proof.
   destruct (w_status q =? c_StatusSuccess); [injection E as ->; exact Hq|]. destruct (pe (w_body q)) as [[? ?]|]; discriminate.
 Qed.
 
+(* ... and that packet is a response with status success (anything else is surfaced as an error, never returned) *)
+Lemma to_waiter_is_response p : route_of p = RToWaiter -> w_ty p = PTResponse.
+Proof.
+  unfold route_of. destruct (w_cmd p <=? c_CMD_RECONNECT).
+  - destruct ((w_cmd p =? c_CMD_HEARTBEAT) && match w_ty p with PTRequest => true | _ => false end); [discriminate|].
+    destruct ((w_cmd p =? c_CMD_HEARTBEAT) && match w_ty p with PTResponse => true | _ => false end); [discriminate|].
+    destruct (w_cmd p =? c_CMD_CLOSE); [discriminate|].
+    destruct ((w_cmd p =? c_CMD_AUTH) || (w_cmd p =? c_CMD_RECONNECT)); [|discriminate].
+    destruct (w_ty p); try discriminate; reflexivity.
+  - destruct (w_ty p); try discriminate; reflexivity.
+Qed.
+
+Corollary returned_packet_is_response pe acts k id p :
+  N.of_nat (starts acts) + 1 < 4294967296 ->
+  nth_error (ws_calls (run pe acts)) k = Some (mkCall id (CDone (WResp p))) ->
+  w_ty p = PTResponse /\ w_status p = c_StatusSuccess /\ w_rid p = id.
+Proof.
+  intros B H. destruct (returns_own_id pe acts k id _ B H) as [(q & E & Hq & Rt)|[E|[E|E]]]; try discriminate.
+  pose proof (to_waiter_is_response q Rt) as T. unfold result_of in E. rewrite T in E.
+  destruct (w_status q =? c_StatusSuccess) eqn:S.
+  - injection E as ->. repeat split; auto. now apply N.eqb_eq.
+  - destruct (pe (w_body q)) as [[? ?]|]; discriminate.
+Qed.
+
 (* a finished call stays finished: it takes at most one packet *)
 Theorem done_is_final pe s a k id r :
   nth_error (ws_calls s) k = Some (mkCall id (CDone r)) -> nth_error (ws_calls (step pe s a)) k = Some (mkCall id (CDone r)).
